@@ -282,3 +282,42 @@ func ForkFeed(arrivals []FBlock, base uint64, storeOrder []string, rec *[]RecSte
 		return io.EOF
 	}
 }
+
+// GenPingPongArrivals: finality stalls at `base`; branch a (base+1 … base+depth) and branch b (forking off base+1) overtake
+// each other `rounds` times, each time by one more block, so that every block of both branches is applied, undone and
+// applied again many times and several hundred block executions pile up between two final blocks.
+func GenPingPongArrivals(r *common.Rng, base uint64, depth int, rounds int) []FBlock {
+	parentID := ""
+	if base > 0 {
+		parentID = CanonID(base - 1)
+	}
+	lib := base
+	if lib > 0 {
+		lib--
+	}
+	blocks := []FBlock{{base, CanonID(base), parentID, lib}, {base + 1, CanonID(base + 1), CanonID(base), base}}
+	a, b := blocks[1], blocks[1]
+	ext := func(p FBlock, letter byte) FBlock {
+		nb := FBlock{p.Num + 1, fmt.Sprintf("%d%c", p.Num+1, letter), p.ID, base}
+		blocks = append(blocks, nb)
+		return nb
+	}
+	// branch a first: depth blocks
+	for i := 0; i < depth; i++ {
+		a = ext(a, 'a')
+	}
+	for round := 0; round < rounds; round++ {
+		for b.Num <= a.Num { // b overtakes a: everything of a above base+1 is undone, b's blocks (re)applied
+			b = ext(b, 'b')
+		}
+		for a.Num <= b.Num {
+			a = ext(a, 'a')
+		}
+	}
+	if r.Bool() { // end on branch b
+		for b.Num <= a.Num {
+			b = ext(b, 'b')
+		}
+	}
+	return blocks
+}
